@@ -1,5 +1,6 @@
 //@ PROPERTY C07
 //@ LINK msgpack/msgpack_readers.cpp common/binary_stream_reader.cpp
+//@ MODELDEF VERIF_STRLEN_ZERO
 //@ OVERRIDE _ZN13BitSerializer7Convert6Detail2ToImcSaIcELi0EEEvRKT_RNSt7__cxx1112basic_stringIT0_St11char_traitsIS9_ET1_EE
 // H07a-c: CMsgPackStringReader (src/msgpack/msgpack_readers.cpp) on ARBITRARY bytes versus a reference decoder transcribed from
 // the MessagePack specification (harness/ref/msgpack_spec.h).
@@ -217,26 +218,26 @@ VH_EXPORT int vp_h07b_str(const unsigned char* in, unsigned char* out) { return 
 VH_EXPORT int vp_h07b_array(const unsigned char* in, unsigned char* out) { return prop_len<mp::Array>(in, out); }
 VH_EXPORT int vp_h07b_map(const unsigned char* in, unsigned char* out) { return prop_len<mp::Map>(in, out); }
 VH_EXPORT int vp_h07b_bin(const unsigned char* in, unsigned char* out) { return prop_len<mp::Bin>(in, out); }
-//@ OBL {"assume": "va_h07", "in": 20, "out": 24, "unwind": 12, "bounds": "every byte string of length <= 9 whose first byte is not an array/map header, both policies symbolic, previous target value symbolic", "name": "h07a_bool", "family": "h07a", "prop": "vp_h07a_bool", "desc": "CMsgPackStringReader::ReadValue(bool&) == reference decoder (value / policy / parsing error / position)", "recursion": {"SkipValueImpl": 0, "total_len": 1}, "unwind_fn": {"SkipValueImpl": 1}}
-//@ OBL {"assume": "va_h07", "in": 20, "out": 24, "unwind": 12, "bounds": "every byte string of length <= 9 whose first byte is not an array/map header, both policies symbolic, previous target value symbolic", "name": "h07a_char", "family": "h07a", "prop": "vp_h07a_char", "desc": "CMsgPackStringReader::ReadValue(char&) == reference decoder (value / policy / parsing error / position)", "recursion": {"SkipValueImpl": 0, "total_len": 1}, "unwind_fn": {"SkipValueImpl": 1}}
-//@ OBL {"assume": "va_h07", "in": 20, "out": 24, "unwind": 12, "bounds": "every byte string of length <= 9 whose first byte is not an array/map header, both policies symbolic, previous target value symbolic", "name": "h07a_u8", "family": "h07a", "prop": "vp_h07a_u8", "desc": "CMsgPackStringReader::ReadValue(uint8_t&) == reference decoder (value / policy / parsing error / position)", "recursion": {"SkipValueImpl": 0, "total_len": 1}, "unwind_fn": {"SkipValueImpl": 1}}
-//@ OBL {"assume": "va_h07", "in": 20, "out": 24, "unwind": 12, "bounds": "every byte string of length <= 9 whose first byte is not an array/map header, both policies symbolic, previous target value symbolic", "name": "h07a_u16", "family": "h07a", "prop": "vp_h07a_u16", "desc": "CMsgPackStringReader::ReadValue(uint16_t&) == reference decoder (value / policy / parsing error / position)", "recursion": {"SkipValueImpl": 0, "total_len": 1}, "unwind_fn": {"SkipValueImpl": 1}}
-//@ OBL {"assume": "va_h07", "in": 20, "out": 24, "unwind": 12, "bounds": "every byte string of length <= 9 whose first byte is not an array/map header, both policies symbolic, previous target value symbolic", "name": "h07a_u32", "family": "h07a", "prop": "vp_h07a_u32", "desc": "CMsgPackStringReader::ReadValue(uint32_t&) == reference decoder (value / policy / parsing error / position)", "recursion": {"SkipValueImpl": 0, "total_len": 1}, "unwind_fn": {"SkipValueImpl": 1}}
-//@ OBL {"assume": "va_h07", "in": 20, "out": 24, "unwind": 12, "bounds": "every byte string of length <= 9 whose first byte is not an array/map header, both policies symbolic, previous target value symbolic", "name": "h07a_u64", "family": "h07a", "prop": "vp_h07a_u64", "desc": "CMsgPackStringReader::ReadValue(uint64_t&) == reference decoder (value / policy / parsing error / position)", "recursion": {"SkipValueImpl": 0, "total_len": 1}, "unwind_fn": {"SkipValueImpl": 1}}
-//@ OBL {"assume": "va_h07", "in": 20, "out": 24, "unwind": 12, "bounds": "every byte string of length <= 9 whose first byte is not an array/map header, both policies symbolic, previous target value symbolic", "name": "h07a_i8", "family": "h07a", "prop": "vp_h07a_i8", "desc": "CMsgPackStringReader::ReadValue(int8_t&) == reference decoder (value / policy / parsing error / position)", "recursion": {"SkipValueImpl": 0, "total_len": 1}, "unwind_fn": {"SkipValueImpl": 1}}
-//@ OBL {"assume": "va_h07", "in": 20, "out": 24, "unwind": 12, "bounds": "every byte string of length <= 9 whose first byte is not an array/map header, both policies symbolic, previous target value symbolic", "name": "h07a_i16", "family": "h07a", "prop": "vp_h07a_i16", "desc": "CMsgPackStringReader::ReadValue(int16_t&) == reference decoder (value / policy / parsing error / position)", "recursion": {"SkipValueImpl": 0, "total_len": 1}, "unwind_fn": {"SkipValueImpl": 1}}
-//@ OBL {"assume": "va_h07", "in": 20, "out": 24, "unwind": 12, "bounds": "every byte string of length <= 9 whose first byte is not an array/map header, both policies symbolic, previous target value symbolic", "name": "h07a_i32", "family": "h07a", "prop": "vp_h07a_i32", "desc": "CMsgPackStringReader::ReadValue(int32_t&) == reference decoder (value / policy / parsing error / position)", "recursion": {"SkipValueImpl": 0, "total_len": 1}, "unwind_fn": {"SkipValueImpl": 1}}
-//@ OBL {"assume": "va_h07", "in": 20, "out": 24, "unwind": 12, "bounds": "every byte string of length <= 9 whose first byte is not an array/map header, both policies symbolic, previous target value symbolic", "name": "h07a_i64", "family": "h07a", "prop": "vp_h07a_i64", "desc": "CMsgPackStringReader::ReadValue(int64_t&) == reference decoder (value / policy / parsing error / position)", "recursion": {"SkipValueImpl": 0, "total_len": 1}, "unwind_fn": {"SkipValueImpl": 1}}
-//@ OBL {"assume": "va_h07", "in": 20, "out": 24, "unwind": 12, "bounds": "every byte string of length <= 9 whose first byte is not an array/map header, both policies symbolic, previous target value symbolic", "name": "h07a_f32", "family": "h07a", "prop": "vp_h07a_f32", "desc": "CMsgPackStringReader::ReadValue(float&) == reference decoder (value / policy / parsing error / position)", "recursion": {"SkipValueImpl": 0, "total_len": 1}, "unwind_fn": {"SkipValueImpl": 1}}
-//@ OBL {"assume": "va_h07", "in": 20, "out": 24, "unwind": 12, "bounds": "every byte string of length <= 9 whose first byte is not an array/map header, both policies symbolic, previous target value symbolic", "name": "h07a_f64", "family": "h07a", "prop": "vp_h07a_f64", "desc": "CMsgPackStringReader::ReadValue(double&) == reference decoder (value / policy / parsing error / position)", "recursion": {"SkipValueImpl": 0, "total_len": 1}, "unwind_fn": {"SkipValueImpl": 1}}
-//@ OBL {"assume": "va_h07", "in": 20, "out": 24, "unwind": 12, "bounds": "every byte string of length <= 9 whose first byte is not an array/map header, both policies symbolic, previous target value symbolic", "name": "h07a_nil", "family": "h07a", "prop": "vp_h07a_nil", "desc": "CMsgPackStringReader::ReadValue(std::nullptr_t&) == reference decoder (value / policy / parsing error / position)", "recursion": {"SkipValueImpl": 0, "total_len": 1}, "unwind_fn": {"SkipValueImpl": 1}}
-//@ OBL {"assume": "va_h07", "in": 20, "out": 24, "unwind": 12, "bounds": "every byte string of length <= 9 whose first byte is not an array/map header, both policies symbolic, previous target value symbolic", "name": "h07b_str", "family": "h07b", "prop": "vp_h07b_str", "desc": "length header reader (str): fix/8/16/32 forms, declared length vs available bytes", "recursion": {"SkipValueImpl": 0, "total_len": 1}, "unwind_fn": {"SkipValueImpl": 1}}
-//@ OBL {"assume": "va_h07_len", "in": 20, "out": 24, "unwind": 12, "bounds": "every byte string of length <= 9 under ThrowError for mismatching kinds (Skip of a mismatching container: C05)", "name": "h07b_array", "family": "h07b", "prop": "vp_h07b_array", "desc": "length header reader (array): fix/8/16/32 forms, declared length vs available bytes", "recursion": {"SkipValueImpl": 0, "total_len": 1}, "cassume": ["(in[1] & 1) == 0 || !((in[2] >= 0x80 && in[2] <= 0x9f) || (in[2] >= 0xdc && in[2] <= 0xdf))"], "unwind_fn": {"SkipValueImpl": 1}}
-//@ OBL {"assume": "va_h07_len", "in": 20, "out": 24, "unwind": 12, "bounds": "every byte string of length <= 9 under ThrowError for mismatching kinds (Skip of a mismatching container: C05)", "name": "h07b_map", "family": "h07b", "prop": "vp_h07b_map", "desc": "length header reader (map): fix/8/16/32 forms, declared length vs available bytes", "recursion": {"SkipValueImpl": 0, "total_len": 1}, "cassume": ["(in[1] & 1) == 0 || !((in[2] >= 0x80 && in[2] <= 0x9f) || (in[2] >= 0xdc && in[2] <= 0xdf))"], "unwind_fn": {"SkipValueImpl": 1}}
-//@ OBL {"assume": "va_h07", "in": 20, "out": 24, "unwind": 12, "bounds": "every byte string of length <= 9 whose first byte is not an array/map header, both policies symbolic, previous target value symbolic", "name": "h07b_bin", "family": "h07b", "prop": "vp_h07b_bin", "desc": "length header reader (bin): fix/8/16/32 forms, declared length vs available bytes", "recursion": {"SkipValueImpl": 0, "total_len": 1}, "unwind_fn": {"SkipValueImpl": 1}}
-//@ OBL {"assume": "va_h07", "in": 20, "out": 24, "unwind": 12, "bounds": "every byte string of length <= 9 whose first byte is not an array/map header, both policies symbolic, previous target value symbolic", "name": "h07c_ts", "family": "h07c_ts", "prop": "vp_h07c_ts", "known": "vk_h07c_ts", "desc": "ReadValue(CBinTimestamp&): fixext4/fixext8/ext8(12) type -1 per spec", "recursion": {"SkipValueImpl": 0, "total_len": 1}, "unwind_fn": {"SkipValueImpl": 1}, "mem_gb": 28}
-//@ OBL {"name": "h07c_ts16", "family": "h07c_ts16", "prop": "vp_h07c_ts16", "assume": "va_h07c_ts16", "known": "vk_h07c_ts16", "in": 18, "out": 24, "unwind": 12, "unwind_fn": {"SkipValueImpl": 1}, "recursion": {"SkipValueImpl": 0, "total_len": 1}, "cassume": ["(in[2] == 0xd6 || in[2] == 0xd7 || in[2] == 0xd8 || in[2] == 0xc7 || in[2] == 0xc8) && (in[2] >= 0xd4 ? in[3] == 0xff : (in[2] == 0xc7 ? in[4] == 0xff : in[5] == 0xff))"], "bounds": "every byte string of length <= 16 that starts with a fixext4/8/16, ext8 or ext16 header of type -1 (timestamp family), both policies", "desc": "ReadValue(CBinTimestamp&): timestamp 32/64/96 layouts incl. non-canonical ext8/ext16 carriers, sizes the spec does not define, truncations"}
-//@ OBL {"name": "h07c_ts16_f5", "only_if_known": "F5r", "prop": "vp_h07c_ts16_f5", "assume": "va_h07c_ts16_f5", "in": 18, "out": 24, "unwind": 12, "unwind_fn": {"SkipValueImpl": 1}, "recursion": {"SkipValueImpl": 0}, "bounds": "every input of length <= 16 starting with C7 0C FF or C8 00 0C FF", "desc": "known finding F5 (reader side) pinned down: 12-byte timestamp decoded as seconds(64), nanoseconds(32) - nothing else tolerated"}
+//@ OBL {"assume": "va_h07", "in": 20, "out": 24, "unwind": 12, "bounds": "every byte string of length <= 9 whose first byte is not an array/map header, both policies symbolic, previous target value symbolic", "name": "h07a_bool", "family": "h07a", "prop": "vp_h07a_bool", "desc": "CMsgPackStringReader::ReadValue(bool&) == reference decoder (value / policy / parsing error / position)", "recursion": {"SkipValueImpl": 0, "total_len": 1}, "unwind_fn": {"SkipValueImpl": 1}, "fs": 32}
+//@ OBL {"assume": "va_h07", "in": 20, "out": 24, "unwind": 12, "bounds": "every byte string of length <= 9 whose first byte is not an array/map header, both policies symbolic, previous target value symbolic", "name": "h07a_char", "family": "h07a", "prop": "vp_h07a_char", "desc": "CMsgPackStringReader::ReadValue(char&) == reference decoder (value / policy / parsing error / position)", "recursion": {"SkipValueImpl": 0, "total_len": 1}, "unwind_fn": {"SkipValueImpl": 1}, "fs": 32}
+//@ OBL {"assume": "va_h07", "in": 20, "out": 24, "unwind": 12, "bounds": "every byte string of length <= 9 whose first byte is not an array/map header, both policies symbolic, previous target value symbolic", "name": "h07a_u8", "family": "h07a", "prop": "vp_h07a_u8", "desc": "CMsgPackStringReader::ReadValue(uint8_t&) == reference decoder (value / policy / parsing error / position)", "recursion": {"SkipValueImpl": 0, "total_len": 1}, "unwind_fn": {"SkipValueImpl": 1}, "fs": 32}
+//@ OBL {"assume": "va_h07", "in": 20, "out": 24, "unwind": 12, "bounds": "every byte string of length <= 9 whose first byte is not an array/map header, both policies symbolic, previous target value symbolic", "name": "h07a_u16", "family": "h07a", "prop": "vp_h07a_u16", "desc": "CMsgPackStringReader::ReadValue(uint16_t&) == reference decoder (value / policy / parsing error / position)", "recursion": {"SkipValueImpl": 0, "total_len": 1}, "unwind_fn": {"SkipValueImpl": 1}, "fs": 32}
+//@ OBL {"assume": "va_h07", "in": 20, "out": 24, "unwind": 12, "bounds": "every byte string of length <= 9 whose first byte is not an array/map header, both policies symbolic, previous target value symbolic", "name": "h07a_u32", "family": "h07a", "prop": "vp_h07a_u32", "desc": "CMsgPackStringReader::ReadValue(uint32_t&) == reference decoder (value / policy / parsing error / position)", "recursion": {"SkipValueImpl": 0, "total_len": 1}, "unwind_fn": {"SkipValueImpl": 1}, "fs": 32}
+//@ OBL {"assume": "va_h07", "in": 20, "out": 24, "unwind": 12, "bounds": "every byte string of length <= 9 whose first byte is not an array/map header, both policies symbolic, previous target value symbolic", "name": "h07a_u64", "family": "h07a", "prop": "vp_h07a_u64", "desc": "CMsgPackStringReader::ReadValue(uint64_t&) == reference decoder (value / policy / parsing error / position)", "recursion": {"SkipValueImpl": 0, "total_len": 1}, "unwind_fn": {"SkipValueImpl": 1}, "fs": 32}
+//@ OBL {"assume": "va_h07", "in": 20, "out": 24, "unwind": 12, "bounds": "every byte string of length <= 9 whose first byte is not an array/map header, both policies symbolic, previous target value symbolic", "name": "h07a_i8", "family": "h07a", "prop": "vp_h07a_i8", "desc": "CMsgPackStringReader::ReadValue(int8_t&) == reference decoder (value / policy / parsing error / position)", "recursion": {"SkipValueImpl": 0, "total_len": 1}, "unwind_fn": {"SkipValueImpl": 1}, "fs": 32}
+//@ OBL {"assume": "va_h07", "in": 20, "out": 24, "unwind": 12, "bounds": "every byte string of length <= 9 whose first byte is not an array/map header, both policies symbolic, previous target value symbolic", "name": "h07a_i16", "family": "h07a", "prop": "vp_h07a_i16", "desc": "CMsgPackStringReader::ReadValue(int16_t&) == reference decoder (value / policy / parsing error / position)", "recursion": {"SkipValueImpl": 0, "total_len": 1}, "unwind_fn": {"SkipValueImpl": 1}, "fs": 32}
+//@ OBL {"assume": "va_h07", "in": 20, "out": 24, "unwind": 12, "bounds": "every byte string of length <= 9 whose first byte is not an array/map header, both policies symbolic, previous target value symbolic", "name": "h07a_i32", "family": "h07a", "prop": "vp_h07a_i32", "desc": "CMsgPackStringReader::ReadValue(int32_t&) == reference decoder (value / policy / parsing error / position)", "recursion": {"SkipValueImpl": 0, "total_len": 1}, "unwind_fn": {"SkipValueImpl": 1}, "fs": 32}
+//@ OBL {"assume": "va_h07", "in": 20, "out": 24, "unwind": 12, "bounds": "every byte string of length <= 9 whose first byte is not an array/map header, both policies symbolic, previous target value symbolic", "name": "h07a_i64", "family": "h07a", "prop": "vp_h07a_i64", "desc": "CMsgPackStringReader::ReadValue(int64_t&) == reference decoder (value / policy / parsing error / position)", "recursion": {"SkipValueImpl": 0, "total_len": 1}, "unwind_fn": {"SkipValueImpl": 1}, "fs": 32}
+//@ OBL {"assume": "va_h07", "in": 20, "out": 24, "unwind": 12, "bounds": "every byte string of length <= 9 whose first byte is not an array/map header, both policies symbolic, previous target value symbolic", "name": "h07a_f32", "family": "h07a", "prop": "vp_h07a_f32", "desc": "CMsgPackStringReader::ReadValue(float&) == reference decoder (value / policy / parsing error / position)", "recursion": {"SkipValueImpl": 0, "total_len": 1}, "unwind_fn": {"SkipValueImpl": 1}, "fs": 32}
+//@ OBL {"assume": "va_h07", "in": 20, "out": 24, "unwind": 12, "bounds": "every byte string of length <= 9 whose first byte is not an array/map header, both policies symbolic, previous target value symbolic", "name": "h07a_f64", "family": "h07a", "prop": "vp_h07a_f64", "desc": "CMsgPackStringReader::ReadValue(double&) == reference decoder (value / policy / parsing error / position)", "recursion": {"SkipValueImpl": 0, "total_len": 1}, "unwind_fn": {"SkipValueImpl": 1}, "fs": 32}
+//@ OBL {"assume": "va_h07", "in": 20, "out": 24, "unwind": 12, "bounds": "every byte string of length <= 9 whose first byte is not an array/map header, both policies symbolic, previous target value symbolic", "name": "h07a_nil", "family": "h07a", "prop": "vp_h07a_nil", "desc": "CMsgPackStringReader::ReadValue(std::nullptr_t&) == reference decoder (value / policy / parsing error / position)", "recursion": {"SkipValueImpl": 0, "total_len": 1}, "unwind_fn": {"SkipValueImpl": 1}, "fs": 32}
+//@ OBL {"assume": "va_h07", "in": 20, "out": 24, "unwind": 12, "bounds": "every byte string of length <= 9 whose first byte is not an array/map header, both policies symbolic, previous target value symbolic", "name": "h07b_str", "family": "h07b", "prop": "vp_h07b_str", "desc": "length header reader (str): fix/8/16/32 forms, declared length vs available bytes", "recursion": {"SkipValueImpl": 0, "total_len": 1}, "unwind_fn": {"SkipValueImpl": 1}, "fs": 32}
+//@ OBL {"assume": "va_h07_len", "in": 20, "out": 24, "unwind": 12, "bounds": "every byte string of length <= 9 under ThrowError for mismatching kinds (Skip of a mismatching container: C05)", "name": "h07b_array", "family": "h07b", "prop": "vp_h07b_array", "desc": "length header reader (array): fix/8/16/32 forms, declared length vs available bytes", "recursion": {"SkipValueImpl": 0, "total_len": 1}, "cassume": ["(in[1] & 1) == 0 || !((in[2] >= 0x80 && in[2] <= 0x9f) || (in[2] >= 0xdc && in[2] <= 0xdf))"], "unwind_fn": {"SkipValueImpl": 1}, "fs": 32}
+//@ OBL {"assume": "va_h07_len", "in": 20, "out": 24, "unwind": 12, "bounds": "every byte string of length <= 9 under ThrowError for mismatching kinds (Skip of a mismatching container: C05)", "name": "h07b_map", "family": "h07b", "prop": "vp_h07b_map", "desc": "length header reader (map): fix/8/16/32 forms, declared length vs available bytes", "recursion": {"SkipValueImpl": 0, "total_len": 1}, "cassume": ["(in[1] & 1) == 0 || !((in[2] >= 0x80 && in[2] <= 0x9f) || (in[2] >= 0xdc && in[2] <= 0xdf))"], "unwind_fn": {"SkipValueImpl": 1}, "fs": 32}
+//@ OBL {"assume": "va_h07", "in": 20, "out": 24, "unwind": 12, "bounds": "every byte string of length <= 9 whose first byte is not an array/map header, both policies symbolic, previous target value symbolic", "name": "h07b_bin", "family": "h07b", "prop": "vp_h07b_bin", "desc": "length header reader (bin): fix/8/16/32 forms, declared length vs available bytes", "recursion": {"SkipValueImpl": 0, "total_len": 1}, "unwind_fn": {"SkipValueImpl": 1}, "fs": 32}
+//@ OBL {"assume": "va_h07", "in": 20, "out": 24, "unwind": 12, "bounds": "every byte string of length <= 9 whose first byte is not an array/map header, both policies symbolic, previous target value symbolic", "name": "h07c_ts", "family": "h07c_ts", "prop": "vp_h07c_ts", "known": "vk_h07c_ts", "desc": "ReadValue(CBinTimestamp&): fixext4/fixext8/ext8(12) type -1 per spec", "recursion": {"SkipValueImpl": 0, "total_len": 1}, "unwind_fn": {"SkipValueImpl": 1}, "mem_gb": 28, "fs": 32}
+//@ OBL {"name": "h07c_ts16", "family": "h07c_ts16", "prop": "vp_h07c_ts16", "assume": "va_h07c_ts16", "known": "vk_h07c_ts16", "in": 18, "out": 24, "unwind": 12, "unwind_fn": {"SkipValueImpl": 1}, "recursion": {"SkipValueImpl": 0, "total_len": 1}, "cassume": ["(in[2] == 0xd6 || in[2] == 0xd7 || in[2] == 0xd8 || in[2] == 0xc7 || in[2] == 0xc8) && (in[2] >= 0xd4 ? in[3] == 0xff : (in[2] == 0xc7 ? in[4] == 0xff : in[5] == 0xff))"], "bounds": "every byte string of length <= 16 that starts with a fixext4/8/16, ext8 or ext16 header of type -1 (timestamp family), both policies", "desc": "ReadValue(CBinTimestamp&): timestamp 32/64/96 layouts incl. non-canonical ext8/ext16 carriers, sizes the spec does not define, truncations", "fs": 32}
+//@ OBL {"name": "h07c_ts16_f5", "only_if_known": "F5r", "prop": "vp_h07c_ts16_f5", "assume": "va_h07c_ts16_f5", "in": 18, "out": 24, "unwind": 12, "unwind_fn": {"SkipValueImpl": 1}, "recursion": {"SkipValueImpl": 0}, "bounds": "every input of length <= 16 starting with C7 0C FF or C8 00 0C FF", "desc": "known finding F5 (reader side) pinned down: 12-byte timestamp decoded as seconds(64), nanoseconds(32) - nothing else tolerated", "fs": 32}
 // vectors from tests/unit_tests/msgpack_tests/msgpack_reader_tests.cpp
 //@ VEC * 0200d080000000000000000000000000000000
 //@ VEC * 0300d1ffce0000000000000000000000000000
